@@ -161,7 +161,7 @@ Definition ex_item : item :=
   {| i_id := [109]; i_tr := TSuffix [95; 83];
      i_rule := {| n_conds := [([], RIsRule)]; n_mode := MLink LOr; n_neg := false |};
      i_det := {| n_conds := []; n_mode := MLink LAnd; n_neg := false |};
-     i_field := {| n_conds := [([120], FInclude [[97]]); ([121], FState [107] (SInt 1) OEq)];
+     i_field := {| n_conds := [([120], FInclude [[97]]); ([121], FState [107] (SNum (NInt 1)) OEq)];
                    n_mode := MExpr (EAnd (EId [120]) (ENot (EId [121]))); n_neg := false |} |}.
 Example C13_step_inhabited :
   wf_ngroup (i_rule ex_item) /\ wf_ngroup (i_det ex_item) /\ wf_ngroup (i_field ex_item) /\
